@@ -105,7 +105,8 @@ inductive Why where
   | deadline                -- errDeadlineExceeded
   | ctx                     -- ctx.Err()
   | closed                  -- ErrNoResponse via <-c.done
-  | txfail                  -- WriteTo failed
+  | txfail                  -- WriteTo failed, client closed
+  | txerr                   -- WriteTo failed, client open
   deriving DecidableEq, Hashable, Repr, Inhabited
 
 /-- Result of `SendAndRead`. `ok none` is `(nil, nil)`. -/
@@ -114,6 +115,7 @@ inductive Ret where
   | noResp
   | ctxErr
   | inUse
+  | writeErr                 -- "error writing packet to connection"
   | crash                    -- matcher called with a nil packet
   deriving DecidableEq, Hashable, Repr, Inhabited
 
@@ -238,6 +240,7 @@ inductive Label where
   | refuse (i : Nat)      -- xid pending: Unlock, return ErrTransactionIDInUse            567-570
   | transmit (i : Nat)    -- conn.WriteTo succeeds; `deadline := time.After(timeout)`     594, 631
   | transmitFail (i : Nat) -- conn.WriteTo fails (conn closed)                            594-595
+  | transmitErr (i : Nat) -- conn.WriteTo fails although the client is open (I/O fault)   594-601
   | take (i : Nat)        -- select: case packet := <-ch                                  642
   | accept (i : Nat)      -- match == nil || match(packet): response = packet; return nil 643-646
   | reject (i : Nat)      -- match(packet) false: loop                                    643
@@ -269,6 +272,7 @@ def retOf : Why → Ret
   | .ctx => .ctxErr
   | .closed => .noResp
   | .txfail => .noResp
+  | .txerr => .writeErr
 
 /-- tries left after one more has been used -/
 def decTries : Option Nat → Option Nat
@@ -378,6 +382,11 @@ def step (cfg : Cfg) (s : State) : Label → Option State
     let c := getC s i
     match c.pc with
     | .registered r => if s.closed then some (setC s i { c with pc := .leaving r .txfail }) else none
+    | _ => none
+  | .transmitErr i =>
+    let c := getC s i
+    match c.pc with
+    | .registered r => if s.closed then none else some (setC s i { c with pc := .leaving r .txerr })
     | _ => none
   | .take i =>
     let c := getC s i
